@@ -41,7 +41,8 @@ TDrop == IsEvent("Drop") /\ Run /\ DropSeg(K, Ev.seq)
 TWrite == IsEvent("Write") /\ Run /\ sk[Ev.s].conn = Ev.conn /\ StartWrite(Ev.s, Ev.h, Ev.size)
 TWriteDone == /\ IsEvent("WriteDone") /\ Run /\ ~Ev.inline
               /\ IF Ev.stale \/ Ev.ec = "aborted" THEN Aborted(Ev.s)
-                 ELSE Ev.ec = "ok" /\ WriteDone(Ev.s, Ev.h, Ev.n)
+                 ELSE IF Ev.ec = "ok" THEN WriteDone(Ev.s, Ev.h, Ev.n)
+                 ELSE Ev.ec \in {"not_connected", "eof", "bad_descriptor"} /\ WriteFailed(Ev.s, Ev.h)
 TRead == IsEvent("Read") /\ Run /\ sk[Ev.s].conn = Ev.conn /\ StartRead(Ev.s, Ev.h, Ev.style, Ev.cap)
 ReadOutcome == IF Ev.ec = "ok" THEN ReadData(Ev.s, Ev.h, Ev.n, Ev.sid, Ev.off)
                ELSE Ev.ec = "eof" /\ ReadEof(Ev.s, Ev.h)
@@ -52,6 +53,11 @@ TReady == /\ IsEvent("Ready") /\ Run /\ ~Ev.inline
              ELSE Ev.ec \in {"ok", "eof"} /\ Ready(Ev.s, Ev.h)
 TReadSome == IsEvent("ReadSome") /\ Run /\ ReadOutcome
 TClose == IsEvent("Close") /\ Run /\ CloseSock(Ev.s)
+TCancel == IsEvent("Cancel") /\ Run /\ CancelSock(Ev.s)
+TCancelAcc == IsEvent("CancelAcc") /\ Run /\ CancelAcceptor(Ev.l)
+\* a user handler threw: the exception left run(); nothing further is required of this run
+TThrow == IsEvent("Throw") /\ Run /\ UNCHANGED tvars0
+TEndThrown == /\ IsEvent("EndThrown") /\ phase = "run" /\ phase' = "idle" /\ keeps' = {} /\ UNCHANGED tvars0
 TConnectDone == /\ IsEvent("ConnectDone") /\ Run /\ ~Ev.inline
                 /\ IF Ev.stale \/ Ev.ec = "aborted" THEN UNCHANGED tvars0
                    ELSE IF Ev.ec = "ok" THEN Len(Ev.lep) = 2 /\ Len(Ev.rep) = 2
@@ -86,7 +92,7 @@ Diag == [l |-> l, owed |-> ~NothingOwed, connects |-> ~ConnectsComplete,
                          wr |-> (sk[Sender(k)].wr # None /\ InFlight(k) = {}),
                          lost |-> Cardinality(Lost(k)), undeliv |-> st[k].wire - st[k].deliv]
                       ELSE [conn |-> k[1], dir |-> k[2], rd |-> FALSE, wr |-> FALSE, lost |-> 0, undeliv |-> 0]]]
-TNext == TEndLoose \/ TCfg \/ TAdv \/ TListen \/ TCloseAcc \/ TAccept \/ TConnect \/ TWire \/ TArrive \/ TDrop \/ TWrite
+TNext == TCancel \/ TCancelAcc \/ TThrow \/ TEndThrown \/ TEndLoose \/ TCfg \/ TAdv \/ TListen \/ TCloseAcc \/ TAccept \/ TConnect \/ TWire \/ TArrive \/ TDrop \/ TWrite
          \/ TWriteDone \/ TRead \/ TReadDone \/ TReady \/ TReadSome \/ TClose \/ TConnectDone \/ TAcceptDone
          \/ TPending \/ TEnd
 TSpec == TInit /\ [][TNext]_tvars
